@@ -84,6 +84,13 @@ Proof.
   destruct (reencode m other st Hwf Hmux Hinvo Hinv) as (st' & E & Hinv' & Ef). rewrite E. auto.
 Qed.
 
+(** self-copy m.CopyFrom(m) (or a reader that aliases the receiver): the source is marshalled before anything is
+    assigned, so the frame is unchanged *)
+Lemma copy_from_self m st :
+  wf_message m -> wf_mux m -> inv (msg_signals m) st = true ->
+  inv (msg_signals m) (copy_from m st st) = true /\ frame_of m (copy_from m st st) = frame_of m st.
+Proof. intros Hwf Hmux Hinv. apply copy_from_spec; assumption. Qed.
+
 (** argument well-formedness of an operation *)
 Definition op_ok (m : message) (o : op) : Prop :=
   match o with
